@@ -17,6 +17,8 @@ import (
 	"verif/harness/internal/hx"
 )
 
+type rec0 = rec
+
 type rec struct {
 	root util.Uint256
 	cont map[string][]byte
@@ -141,6 +143,7 @@ func rootIsBranch(cont map[string][]byte) bool {
 // block runs one committed block and all oracles.
 func (h *hist) block(idx uint32, ops []subop) {
 	root, obs := h.m.Block(idx, ops, true)
+	h.checkLeak(idx)
 	if obs != "" {
 		if !h.rootOnly {
 			h.line(fmt.Sprintf("blk %d %s", idx, subStr(ops)), obs)
@@ -239,10 +242,28 @@ func (h *hist) gcObserved(g uint32) {
 	h.o.Count("gc:by-node")
 }
 
+// checkLeak: AddMPTBatch works in the block's private cache; before the block is committed the
+// module's own store must not have changed (this is independent of the shared-map defect: it is
+// checked before afterDrop is set and never folded into the known keys).
+func (h *hist) checkLeak(idx uint32) {
+	x, ok := h.m.(*modM)
+	if !ok {
+		return
+	}
+	h.o.Count("precommit-store-checked")
+	if x.copies {
+		h.o.Count("precommit-store-checked:exact")
+	}
+	if x.leak != "" {
+		h.o.Fail("addmptbatch-writes-through", h.k, "[%s/%s] block %d: the module's store changed before the block was committed: %s", h.m.Name(), h.mode, idx, x.leak)
+	}
+}
+
 // drop computes a block and never commits it.
 func (h *hist) drop(idx uint32, ops []subop) {
 	inMem := h.m.CanDrop() && rootIsBranch(h.cont) && rootIsBranch(applyOps(h.cont, ops))
 	root, obs := h.m.Block(idx, ops, false)
+	h.checkLeak(idx)
 	if !inMem {
 		// which Go objects the shallow copy shares is outside the model here: stop comparing
 		h.line("wild", "ok")
@@ -264,7 +285,11 @@ func (h *hist) drop(idx uint32, ops []subop) {
 	h.afterDrop = true
 	cur := h.m.View()
 	if !sameView(cur, h.last) {
-		h.fail("drop-changed-store", "a dropped block changed the node store")
+		if x, ok := h.m.(*modM); ok && x.copies {
+			h.o.Fail("addmptbatch-writes-through", h.k, "[%s/%s] dropped block %d changed the node store below the cache", h.m.Name(), h.mode, idx)
+		} else {
+			h.fail("drop-changed-store", "a dropped block changed the node store (in place, through shared slices)")
+		}
 	}
 }
 
